@@ -22,6 +22,14 @@ def _alarm(signum, frame):
 def run_one(mod, prop, tier, seed, index, verbose=False):
     case_seed = f"{prop}:{seed}:{index}"
     rng = random.Random(case_seed)
+    # components that are called WITHOUT a seed draw from the global generators: pin those per case, so that a replay
+    # sees the same draws (checks that watch the global generators set their own states afterwards)
+    random.seed(case_seed + ":global")
+    try:
+        import numpy as _np
+        _np.random.seed(int.from_bytes(case_seed.encode(), "little") % (2 ** 32))
+    except Exception:
+        pass
     case = Case(prop, index, case_seed, tier)
     timeout = getattr(mod, "CASE_TIMEOUT", 60)
     t0 = time.time()
